@@ -94,6 +94,8 @@ def workdir(case):
     for j in range(case["nfiles"]):
         q = np.round(np.arange(0.4 + 0.05 * j, 6.0, 0.1), 2)
         s = 1 + np.sin(2.2 * q) / (2.2 * q) + r.normal(size=len(q)) * 0.01
+        if case["seed"] % 3 == 0:
+            q, s = q[::-1], s[::-1]      # rows listed from high Q to low Q (time-of-flight order): the same data
         with open(f"in{j}.dat", "w") as f:
             f.write("%d\n# Q S(Q)\n" % len(q))
             for a, b in zip(q, s):
@@ -111,6 +113,9 @@ def files_of(case, names):
     if case["seed"] % 2 == 0:
         for f in fs:
             f.pop("Qmin")  # the per-dataset window is optional: the whole file is used, including its first data row
+    if case["seed"] % 5 in (0, 1):
+        for f in fs:
+            f.pop("Qmax")  # ... and its last
     if case["invalid"] == "recip":
         bad = ["F(Q)", "S(Q)-1", "[S(Q)-1]", "CS(Q)", "K(Q)", "(Q)", "Q", "", "s(q)", "S(Q) ", "S(Q), Q[S(Q)-1]", "FK(Q), DCS(Q)"]
         fs[0]["ReciprocalFunction"] = bad[case["seed"] % len(bad)]
@@ -262,6 +267,11 @@ def evaluate(case):
             if k == "Rdelta" and ("Rdelta" in full or "Rpoints" in full):
                 continue
             full.setdefault(k, copy.deepcopy(v))
+        for j, f in enumerate(full["Files"]):
+            # the default of an omitted per-file window bound is the data range of that file
+            qj = np.round(np.arange(0.4 + 0.05 * j, 6.0, 0.1), 2)
+            f.setdefault("Qmin", float(qj.min()))
+            f.setdefault("Qmax", float(qj.max()))
         e2 = run(pystog_cli, full)
         s2 = snapshot(d)
         clear(d)
